@@ -236,6 +236,33 @@ PROPS = {
         "technique": "deterministic simulation with exhaustive single-fault "
         "and crash-point injection per seeded scenario",
     },
+    "C20": {
+        "flavours": ["tsan", "asan"],
+        "runs": {"quick": 1500, "thorough": 60000},
+        "rule": "one case = 1-4 producer threads logging 5-200 tagged lines of "
+        "10 B - 300 KiB through debugLog, LogStream (with per-thread DISABLE/"
+        "ENABLE) and kmsgLog into the real Log whose I/O thread writes to a "
+        "scripted sink that blocks for plan-chosen virtual periods (0, 1 ms, "
+        "1 s, 60 s); scheduling policy (uniform / PCT depth 1-3 / run-to-"
+        "block) and spurious wake-ups drawn per run; shutdown after the "
+        "producers joined; non-trivial = more than two context switches; "
+        "distinct = distinct (event log, schedule) hash",
+        "level_text": "seeded exploration of thread interleavings under the "
+        "deterministic scheduler (real threads, one runnable at a time, TSan "
+        "as happens-before race detector over the serial execution, ASan in "
+        "the second flavour); oracle over the recorded history: every line "
+        "delivered at most once and uncorrupted, per-producer FIFO, "
+        "undelivered lines = sum of the 'N messages dropped' reports, all "
+        "accepted lines flushed when ~Log returns, accepted-but-unwritten "
+        "bytes <= 1 MiB at every instant, no drops below the cap with a "
+        "non-blocking sink, silencing affects only the issuing thread, kmsg "
+        "records always reach the kmsg fd; deadlock = violation.",
+        "real": ["Oomd::Log (async mode) with its I/O thread, LogStream, "
+                 "std::mutex/condition_variable/thread of static libstdc++"],
+        "stubs": ["thread scheduling (baton scheduler, sim/sched)", "virtual "
+                  "clock", "sink std::streambuf scripted by the plan",
+                  "producer threads are harness code calling the public API"],
+    },
     "C02": {
         "flavours": ["asan"],
         "runs": {"quick": 4000, "thorough": 150000},
